@@ -53,6 +53,8 @@ pub enum C17Case {
     /// the file may not grow beyond `limit` bytes (RLIMIT_FSIZE in a child process: short
     /// writes, then EFBIG): whatever work() returns, what counts as consumed is in the file
     FileLimit { kind: u8, n: u32, seed: u32, limit: u32 },
+    /// a producer task commits small pieces while the sink works, under the schedule explorer
+    Interleaved { n: u16, seed: u32, piece: u8, decisions: Vec<u8> },
 }
 
 fn mode_str(m: u8) -> &'static str {
@@ -197,7 +199,8 @@ impl Prop for C17 {
         let shared = (0u8..3, 1u16..2000, any::<u32>(), 1u16..300, 1u8..5).prop_map(|(kind, n, seed, chunk, every)| C17Case::AppendShared { kind, n, seed, chunk, every });
         let race = (0u8..3, 2u8..9, 1u8..12).prop_map(|(kind, threads, rounds)| C17Case::CreateRace { kind, threads, rounds });
         let flimit = (0u8..2, 1u32..60_000, any::<u32>(), 0u32..200_000).prop_map(|(kind, n, seed, limit)| C17Case::FileLimit { kind, n, seed, limit });
-        prop_oneof![16 => modes, 2 => kills, 12 => durable, 2 => blocked, 2 => shared, 1 => race, 1 => flimit].boxed()
+        let inter = (1u16..4000, any::<u32>(), 1u8..40, crate::sched::decisions_strategy(300)).prop_map(|(n, seed, piece, decisions)| C17Case::Interleaved { n, seed, piece, decisions });
+        prop_oneof![16 => modes, 2 => kills, 12 => durable, 2 => blocked, 2 => shared, 1 => race, 1 => flimit, 2 => inter].boxed()
     }
     fn cases(&self, tier: Tier) -> u64 {
         tier.pick(4_000, 40_000)
@@ -229,6 +232,7 @@ impl Prop for C17 {
         match case {
             C17Case::Mode { mode, init, kind, n, seed, chunk, name } => run_mode(*mode, *init, *kind, *n as usize, *seed as u64, *chunk as usize, *name, ctx),
             C17Case::FileLimit { kind, n, seed, limit } => run_file_limit(*kind, *n as usize, *seed as u64, *limit as u64, ctx),
+            C17Case::Interleaved { n, seed, piece, decisions } => run_interleaved(*n as usize, *seed as u64, *piece as usize, decisions, ctx),
             C17Case::CreateRace { kind, threads, rounds } => run_create_race(*kind, *threads as usize, *rounds as usize, ctx),
             C17Case::AppendShared { kind, n, seed, chunk, every } => run_append_shared(*kind, *n as usize, *seed as u64, *chunk as usize, *every as usize, ctx),
             C17Case::Blocked { kind, n, seed, piece, dev_full } => run_blocked(*kind, *n as usize, *seed as u64, *piece as usize, *dev_full, ctx),
@@ -239,7 +243,7 @@ impl Prop for C17 {
         }
     }
     fn rule(&self) -> String {
-        "enumerated: open modes x initial file states x sink kinds x {700, 3, 0} units of new data (189 combinations) and, for absent / non-empty files, three further spellings of the file name (bytes that are not UTF-8, non-ASCII with blanks, 200 characters; 54 combinations), plus generated data lengths/chunkings; fault enumeration: a child process streams a seeded sequence through the sink and acknowledges the running count of consumed samples (raw write(2)) after every work() that returns; the parent SIGKILLs it after a generated number of acknowledgements plus a generated busy-wait. Oracle: constructor result and final file content equal a model of the documented modes (Create fails iff the path exists; Overwrite leaves exactly the new data; Append keeps old content and appends, creating the file if absent; structural impossibilities are Err); after a kill the file is (old content for Append ++) a byte prefix of the serialised stream, at least as long as the last acknowledged count. In-process crash-point enumeration ('durable' cases): FileSink<u8|f32|Complex|u32|a user-defined big-endian 16-bit sample type> on streams of 8 KiB, 64 KiB, 1 MiB and the default 4 MB, fed batches of 1..200 000 samples (and, for the byte sink on the default stream, a few batches of 1-3.6 million); after *every* work() that returns, the file is read through a second descriptor (exactly what a SIGKILL at that instant leaves behind, since the page cache survives the process) and must hold all consumed samples and be a prefix of the serialised stream. A size-limited file (RLIMIT_FSIZE in a child: short writes, then EFBIG): what counts as consumed is in the file, the file is a prefix. Create raced from 2-8 threads on one absent path: exactly one constructor succeeds. Append with a second appender ('append-shared'): another handle appends markers to the file between work() calls; the file must be the old content followed by everything in the order it was written. Crash points inside a call ('blocked' cases): the destination is a FIFO drained by the harness in pieces, so the sink blocks in write(2) mid-call while the harness samples how much of the stream counts as consumed: bytes consumed <= bytes read from the FIFO + pipe capacity (+ one packet for the packet sink) at every observation - an invariant of any sink that consumes after writing, so timing can hide a violation but not produce one; and /dev/full, where the write fails: nothing of that call may count as consumed (stream sink). Non-trivial: a FIFO case with more data than the pipe holds, a durable case with >= 2 work() returns, a mode case whose initial state is not 'absent', or a kill that landed after >= 1 acknowledgement and before the end; distinct = hash of the case (kill timing is not part of the hash).".into()
+        "enumerated: open modes x initial file states x sink kinds x {700, 3, 0} units of new data (189 combinations) and, for absent / non-empty files, three further spellings of the file name (bytes that are not UTF-8, non-ASCII with blanks, 200 characters; 54 combinations), plus generated data lengths/chunkings; fault enumeration: a child process streams a seeded sequence through the sink and acknowledges the running count of consumed samples (raw write(2)) after every work() that returns; the parent SIGKILLs it after a generated number of acknowledgements plus a generated busy-wait. Oracle: constructor result and final file content equal a model of the documented modes (Create fails iff the path exists; Overwrite leaves exactly the new data; Append keeps old content and appends, creating the file if absent; structural impossibilities are Err); after a kill the file is (old content for Append ++) a byte prefix of the serialised stream, at least as long as the last acknowledged count. In-process crash-point enumeration ('durable' cases): FileSink<u8|f32|Complex|u32|a user-defined big-endian 16-bit sample type> on streams of 8 KiB, 64 KiB, 1 MiB and the default 4 MB, fed batches of 1..200 000 samples (and, for the byte sink on the default stream, a few batches of 1-3.6 million); after *every* work() that returns, the file is read through a second descriptor (exactly what a SIGKILL at that instant leaves behind, since the page cache survives the process) and must hold all consumed samples and be a prefix of the serialised stream. A size-limited file (RLIMIT_FSIZE in a child: short writes, then EFBIG): what counts as consumed is in the file, the file is a prefix. Interleaved producer: under the schedule explorer a producer task commits pieces of 1-39 samples while the sink works (a commit can land between any two stream operations of one work() call); with everything consumed the file must equal the serialised stream. Create raced from 2-8 threads on one absent path: exactly one constructor succeeds. Append with a second appender ('append-shared'): another handle appends markers to the file between work() calls; the file must be the old content followed by everything in the order it was written. Crash points inside a call ('blocked' cases): the destination is a FIFO drained by the harness in pieces, so the sink blocks in write(2) mid-call while the harness samples how much of the stream counts as consumed: bytes consumed <= bytes read from the FIFO + pipe capacity (+ one packet for the packet sink) at every observation - an invariant of any sink that consumes after writing, so timing can hide a violation but not produce one; and /dev/full, where the write fails: nothing of that call may count as consumed (stream sink). Non-trivial: a FIFO case with more data than the pipe holds, a durable case with >= 2 work() returns, a mode case whose initial state is not 'absent', or a kill that landed after >= 1 acknowledgement and before the end; distinct = hash of the case (kill timing is not part of the hash).".into()
     }
     fn assumptions(&self) -> Vec<String> {
         vec![
@@ -248,6 +252,104 @@ impl Prop for C17 {
             "the kill instant is not reproducible; the oracle holds for every instant".into(),
             "packet streams have no peek: the one packet NoCopyFileSink is writing was popped before the write, so during a call one packet may be in flight, and its loss after an Err return (write failure) is not asserted".into(),
         ]
+    }
+}
+
+/// The producer runs in another task and commits while the sink is inside work(): every lock
+/// and unlock of the stream is a scheduling point, so a commit can land between any two stream
+/// operations of one work() call.  What was consumed must be in the file - all of it, since
+/// the run ends with everything consumed.
+fn run_interleaved(n: usize, seed: u64, piece: usize, decisions: &[u8], ctx: &mut Ctx) {
+    use std::sync::atomic::{AtomicBool, AtomicUsize, Ordering};
+    use std::sync::Arc;
+    ctx.class("interleaved-producer");
+    let sc = Scratch::new();
+    let path = sc.path("interleaved.bin");
+    let mut r = crate::gens::XRng::new(seed ^ 0x1e7);
+    let data: Arc<Vec<u32>> = Arc::new((0..n).map(|_| r.next() as u32).collect());
+    let bytes: Vec<u8> = data.iter().flat_map(|x| x.to_le_bytes()).collect();
+    let err: Arc<std::sync::Mutex<Option<String>>> = Arc::new(std::sync::Mutex::new(None));
+    let works = Arc::new(AtomicUsize::new(0));
+    let (d2, p2, e2, w2) = (data.clone(), path.clone(), err.clone(), works.clone());
+    let ex = crate::sched::explore(decisions, 2_000_000, move || {
+        rustradio::verif::set_stream_size(Some(8192));
+        let (w, rd) = rustradio::stream::new_stream::<u32>();
+        rustradio::verif::set_stream_size(None);
+        let mut sink = match FileSink::<u32>::new(rd, &p2, rustradio::file_sink::Mode::Create) {
+            Ok(s) => s,
+            Err(e) => {
+                *e2.lock().unwrap() = Some(format!("ctor: {e}"));
+                return;
+            }
+        };
+        let done = Arc::new(AtomicBool::new(false));
+        let (d3, done2) = (d2.clone(), done.clone());
+        let prod = crate::sched::spawn("producer", move || {
+            let mut pos = 0usize;
+            let mut k = 0usize;
+            while pos < d3.len() {
+                k += 1;
+                let m = (1 + (k * 7 + pos) % piece.max(1)).min(d3.len() - pos).min(w.free());
+                if m == 0 {
+                    crate::sched::hpoint();
+                    continue;
+                }
+                let mut wb = w.write_buf().unwrap();
+                wb.slice()[..m].copy_from_slice(&d3[pos..pos + m]);
+                wb.produce(m, &[]);
+                pos += m;
+            }
+            done2.store(true, Ordering::SeqCst);
+            // keep the writer alive until the sink has seen everything
+            drop(w);
+        });
+        let mut idle = 0;
+        for _ in 0..200_000 {
+            let was_done = done.load(Ordering::SeqCst);
+            match sink.work() {
+                Ok(rustradio::block::BlockRet::WaitForStream(_, _)) | Ok(rustradio::block::BlockRet::EOF) => {
+                    if was_done {
+                        idle += 1;
+                        if idle > 2 {
+                            break;
+                        }
+                    }
+                    crate::sched::hpoint();
+                }
+                Ok(_) => idle = 0,
+                Err(e) => {
+                    *e2.lock().unwrap() = Some(format!("work: {e}"));
+                    break;
+                }
+            }
+            w2.fetch_add(1, Ordering::SeqCst);
+        }
+        let _ = prod.join();
+    });
+    if ex.panic.is_some() {
+        if let Some(pi) = &ex.panic {
+            if ex.step_bound_hit || ex.deadlock {
+                ctx.skip("interleaved run did not finish within the step bound (inconclusive)");
+            } else {
+                ctx.fail(format!("C17/interleaved/panic/{}", crate::engine::loc_file(&pi.loc)), format!("panic at {}: {}", pi.loc, pi.msg));
+            }
+        }
+        return;
+    }
+    if let Some(e) = err.lock().unwrap().clone() {
+        ctx.fail("C17/interleaved/error".to_string(), e);
+        return;
+    }
+    if works.load(Ordering::SeqCst) >= 3 && ex.preemptions > 0 {
+        ctx.nontrivial();
+    }
+    let got = std::fs::read(&path).unwrap_or_default();
+    if got != bytes {
+        let first = got.iter().zip(bytes.iter()).position(|(a, b)| a != b).unwrap_or(got.len().min(bytes.len()));
+        ctx.fail(
+            "C17/interleaved/consumed-data-not-in-file".to_string(),
+            format!("a producer committed {n} samples in pieces of up to {piece} while the sink worked ({} work() calls, {} pre-emptions): everything was consumed, the file has {} bytes, the stream {} bytes; first difference at byte {first}", works.load(Ordering::SeqCst), ex.preemptions, got.len(), bytes.len()),
+        );
     }
 }
 
